@@ -47,11 +47,13 @@ func (authenticator *CertificateAuthenticator) Authenticate(conn Conn) (bool, er
 	if !ok {
 		return false, nil
 	}
-	for _, cert := range conState.PeerCertificates {
-		if 0 < len(authenticator.commonName) {
-			if cert.Subject.CommonName == authenticator.commonName {
-				return true, nil
-			}
+	if len(conState.PeerCertificates) == 0 {
+		return false, nil
+	}
+	cert := conState.PeerCertificates[0]
+	if 0 < len(authenticator.commonName) {
+		if cert.Subject.CommonName == authenticator.commonName {
+			return true, nil
 		}
 	}
 	return false, nil
